@@ -534,7 +534,8 @@ pub fn run(args: &Args) -> i32 {
         }
     }
     // a composite D that passes the pseudo-square test: D = 211 * 229 = 48319 = 3 mod 4 and n = 1 mod D
-    for &bits in &[60u32, 120] {
+    // (sizes such that D is not far above the ideal value: the code relies on B^2 < n, i.e. C < 0)
+    for &bits in &[90u32, 120] {
         for r4 in [1u64, 3] {
             let d: u64 = 211 * 229;
             let mut n;
